@@ -77,6 +77,7 @@ type c01Cfg struct {
 	repeats            int
 	replies            bool
 	doubleClose        bool // close every swarm from two goroutines at once (Close racing Close is concurrent use too)
+	closeMid           bool // node 0 is closed while traffic flows and callbacks are running: what its callbacks hold must stay theirs until they return
 	atMostOnce         bool // judge a second delivery of a unique (self-describing) payload: the stack under test must suppress replays
 }
 
@@ -94,6 +95,7 @@ func runLedgerWorkload(r *ev.Run, st *Stack, g *rng.R, caseID string, cfg c01Cfg
 	lengths := lengthsFor(g, mtu, st.InnerMTU, 12, 70000)
 	ctx, cancel := context.WithCancel(context.Background())
 	var told, got, dups, replies atomic.Int64
+	var closedMid atomic.Bool
 	var rwg, swg sync.WaitGroup
 	viol := func(sig, desc string, d map[string]any) {
 		d["stack"] = st.Name
@@ -114,7 +116,13 @@ func runLedgerWorkload(r *ev.Run, st *Stack, g *rng.R, caseID string, cfg c01Cfg
 							// private copy first; the callback then owns (and scribbles) the buffer
 							sum0 := crcOf(m.Payload)
 							p := append([]byte{}, m.Payload...)
-							if lg.Chance(1, 4) {
+							if cfg.closeMid && node.Idx == 0 && got.Load() >= 8 {
+								// the node is about to be closed: its callbacks stay until it has been (bounded), and a little longer
+								for w := 0; w < 400 && !closedMid.Load(); w++ {
+									time.Sleep(50 * time.Microsecond)
+								}
+								time.Sleep(time.Duration(300+lg.Intn(1200)) * time.Microsecond)
+							} else if lg.Chance(1, 4) {
 								time.Sleep(time.Duration(lg.Intn(50)) * time.Microsecond)
 							}
 							if crcOf(m.Payload) != sum0 {
@@ -244,6 +252,9 @@ func runLedgerWorkload(r *ev.Run, st *Stack, g *rng.R, caseID string, cfg c01Cfg
 									timeout = time.Duration(50+lg.Intn(3000)) * time.Microsecond
 									r.Count("tells_with_tight_deadline", 1)
 								}
+								if cfg.closeMid {
+									time.Sleep(20 * time.Microsecond) // paced, so that the telling lasts well past the moment of Close
+								}
 								tctx, cf := context.WithTimeout(ctx, timeout)
 								err := node.Tell(tctx, dst, v)
 								cf()
@@ -270,6 +281,17 @@ func runLedgerWorkload(r *ev.Run, st *Stack, g *rng.R, caseID string, cfg c01Cfg
 				})
 			}()
 		}
+	}
+	if cfg.closeMid {
+		go func() {
+			for w := 0; w < 100000 && got.Load() < 12; w++ {
+				time.Sleep(50 * time.Microsecond)
+			}
+			time.Sleep(time.Duration(g.Intn(600)) * time.Microsecond)
+			st.Nodes[0].Close()
+			closedMid.Store(true)
+			r.Count("closed_mid_traffic", 1)
+		}()
 	}
 	sdone := make(chan struct{})
 	go func() { swg.Wait(); close(sdone) }()
@@ -379,7 +401,7 @@ func shortQueueStack(name string) bool {
 }
 
 func runC01(r *ev.Run) {
-	r.Rule = "per stack: 3 nodes, several concurrent senders and receivers per node, all pairs, payload lengths {0,1,2,3,15..19,31..33,63..65, fragment boundaries +-1, MTU-1, MTU} plus random, IOVecs of 1-5 segments, replies to the observed source address (half from inside the callback), seeded delays at hook points; every delivered payload is looked up (sha256) in a ledger of unique self-describing payloads: must have been told to this receiver, Src must name the teller, Dst the receiver; callback buffers are checksummed and scribbled (0xDD), sender buffers compared and overwritten (0xEE) after Tell. Losses and duplicates are counted, not judged. On stacks whose addresses carry an identity, a Tell to identity X at node Y's transport address must not reach Y. non-trivial = a delivery observed and matched; distinct = (stack, length class)"
+	r.Rule = "per stack: 3 nodes, several concurrent senders and receivers per node, all pairs, payload lengths {0,1,2,3,15..19,31..33,63..65, fragment boundaries +-1, MTU-1, MTU} plus random, IOVecs of 1-5 segments, replies to the observed source address (half from inside the callback), seeded delays at hook points; every delivered payload is looked up (sha256) in a ledger of unique self-describing payloads: must have been told to this receiver, Src must name the teller, Dst the receiver; callback buffers are checksummed and scribbled (0xDD), sender buffers compared and overwritten (0xEE) after Tell (a third of the vectors are slices of one buffer with gaps and spare capacity behind every segment, and the whole buffer is compared). Extra runs: short receive queues, peers with different MTUs, a link that wipes and drops every fifth message, node 0 closed while its callbacks are running and its peers keep telling; the largest message of the reassembling layers (MTU()-1, MTU(), MTU()+1 bytes over parts of 1, 2 or 4 bytes). Losses and duplicates are counted, not judged. On stacks whose addresses carry an identity, a Tell to identity X at node Y's transport address must not reach Y. non-trivial = a delivery observed and matched; distinct = (stack, length class)"
 	stacks := allStacks()
 	g := rng.New(r.Seed, "C01", fmt.Sprint(r.Batch))
 	idx := 0
@@ -409,7 +431,12 @@ func runC01(r *ev.Run) {
 		case "mem", "secmem", "mux-string(mem)", "frag(mem)":
 			lossy = 1 // a link emulation that wipes what it drops: it must have been given its own copy
 		}
-		for rep := 0; rep < reps+shortq+skewed+lossy; rep++ {
+		closeMid := 0
+		switch sf.Name {
+		case "mux-string(mem)", "mux-varint(mem)", "mux-uint32(mem)", "multi{mem,mem}", "frag(mem)", "mbapp(mem)", "mem":
+			closeMid = 1 // a node closes while its callbacks are running and its peers keep telling
+		}
+		for rep := 0; rep < reps+shortq+skewed+lossy+closeMid; rep++ {
 			idx++
 			cg := g.Fork()
 			if !r.Mine(idx) || (onlySkew && rep < reps+shortq) {
@@ -420,7 +447,9 @@ func runC01(r *ev.Run) {
 				continue
 			}
 			so := stackOptsFor(sf.Name, cg)
-			if rep >= reps+shortq+skewed {
+			if rep >= reps+shortq+skewed+lossy {
+				so.queueLen = 8
+			} else if rep >= reps+shortq+skewed {
 				so.lossy = true
 			} else if rep >= reps+shortq {
 				// peers that disagree about the limit: node i is configured with MTU>>i
@@ -438,13 +467,16 @@ func runC01(r *ev.Run) {
 			}
 			armStackHooks(cg)
 			cfg := c01Cfg{senders: cg.Range(2, 4), receivers: cg.Range(1, 3), repeats: pick(r, 1, 2), replies: true}
+			if cfg.closeMid = rep >= reps+shortq+skewed+lossy; cfg.closeMid {
+				cfg.repeats *= 3 // the peers keep telling well past the moment of Close
+			}
 			d := runLedgerWorkload(r, st, cg, caseID, cfg, "C01")
 			verifhook.DisarmAll()
 			if d == 0 {
 				r.Inconclusive("no delivery observed on " + st.Name)
 			}
 			if rep == 0 || rep >= reps {
-				r.Sample(map[string]any{"stack": st.Name, "mtu": st.Nodes[0].MTU(), "inner_mtu": st.InnerMTU, "queue_len": so.queueLen, "skewed_mtu": so.skew, "lossy_link": so.lossy, "senders_per_node": cfg.senders, "receivers_per_node": cfg.receivers, "delivered": d})
+				r.Sample(map[string]any{"stack": st.Name, "mtu": st.Nodes[0].MTU(), "inner_mtu": st.InnerMTU, "queue_len": so.queueLen, "skewed_mtu": so.skew, "lossy_link": so.lossy, "closed_mid_traffic": cfg.closeMid, "senders_per_node": cfg.senders, "receivers_per_node": cfg.receivers, "delivered": d})
 			}
 		}
 	}
